@@ -142,6 +142,18 @@ def run_case(args):
                 got = [S.fid(f) for f in db.all_features()]
                 if got != want:
                     fails.append(("create_db_%s" % form, got))
+                # ... and with a transform that is NOT idempotent (it appends to an attribute and records its calls): exactly once per feature
+                calls2 = []
+
+                def tr3(f, calls2=calls2):
+                    calls2.append(S.fid(f))
+                    f.attributes["seen"] = list(f.attributes.get("seen", [])) + ["x"]
+                    return f
+                with S.quiet(), warnings.catch_warnings():
+                    warnings.simplefilter("ignore")
+                    dbt = gffutils.create_db(make_input(form, path, text, cl, store), ":memory:", checklines=cl, transform=tr3, **kw)
+                if calls2 != want or any(list(f.attributes.get("seen", [])) != ["x"] for f in dbt.all_features()):
+                    fails.append(("create_db_transform_once_%s" % form, calls2))
                 lines_ref = [str(f) for f in store["db"].all_features()]
                 if [str(f) for f in db.all_features()] != lines_ref:
                     fails.append(("create_db_content_%s" % form, None))
